@@ -47,6 +47,11 @@ func genAuxFor(t *rapid.T, label string) ([]byte, string) {
 func genC08(t *rapid.T) c08Case {
 	c := c08Case{Cfg: smallConfig()}
 	c.Cfg.Default = uint(rapid.IntRange(1, 2).Draw(t, "default"))
+	// records "with and without auxiliary data of any size" - and first lines of any size: long argon2id tags put the record line over 4096 bytes
+	c.Cfg.Sets[0].Length = uint32(rapid.SampledFrom([]int{16, 16, 16, 32, 3037, 4096, 6000}).Draw(t, "taglen"))
+	if c.Cfg.Sets[0].Length > 3000 {
+		vlib.Class("record-line-over-4096-bytes")
+	}
 	kind := rapid.SampledFrom([]string{"add", "add", "update", "update", "update", "init"}).Draw(t, "op")
 	if kind != "init" {
 		c.Pre = append(c.Pre, preUser{Name: "root", PW: "rootpw", Admin: true, PID: uint(rapid.IntRange(1, 2).Draw(t, "rpid"))})
